@@ -1,13 +1,13 @@
 SPECIFICATION Spec
 CONSTANTS
-  Ls <- LsT
+  Ls <- LsT0
   Bszs <- BszAll
   D = 2
   Caps <- CapsT
   B0s <- B0T
   Modes <- ModesAll
   MaxSweeps = 3
-  MinExtra = 1
+  MinExtra = 0
   Ranks = "any"
   Mutant = "none"
   Emit = FALSE
@@ -17,6 +17,6 @@ INVARIANT PosInRange
 INVARIANT SweepOrder
 INVARIANT ReportedIsCurrent
 INVARIANT BondCap
-INVARIANT EndNormalized
+INVARIANT EndNormalizedAnyCap
 INVARIANT WiringIsTransposed
 CHECK_DEADLOCK FALSE
